@@ -244,6 +244,10 @@ class Checker:
                     if pe.tag in context:
                         if value != context[pe.tag]:
                             continue
+                        # The pattern may have been bound by the packet name (see `check`):
+                        # the constraints of this rule still apply to it.
+                        if not self._check_cons(value, context, pe.cons_sets):
+                            continue
                         matches.append(-1)
                     else:
                         if not self._check_cons(value, context, pe.cons_sets):
